@@ -151,6 +151,14 @@ var c12Specs = []c12Spec{
 		c.Add(a)
 		return &c12World{c: c, muts: []func(){func() { a.RemoveRoute("/a/y", "GET") }}, reqs: []h.Req{get("a", "x"), get("a", "y")}}
 	}},
+	{name: "two-unroutes-of-the-only-route", servers: [][]int{{0}}, mutators: [][]int{{0}, {1}}, world: func(jsr bool) *c12World {
+		// the second RemoveRoute finds an empty route list
+		c := c12Container(jsr)
+		a := newWS("/a", true, "/y")
+		c.Add(a)
+		rm := func() { a.RemoveRoute("/a/y", "GET") }
+		return &c12World{c: c, muts: []func(){rm, rm}, reqs: []h.Req{get("a", "y")}}
+	}},
 	{name: "panicking-condition", servers: [][]int{{0, 1}}, mutators: [][]int{{0}}, world: func(jsr bool) *c12World {
 		c := c12Container(jsr)
 		c.DoNotRecover(false)
